@@ -7,7 +7,7 @@ wt, pid, prefix = sys.argv[1], sys.argv[2], sys.argv[3]
 out = os.path.join(wt, "out")
 notes = open(os.path.join(out, "notes.md")).read() if os.path.exists(os.path.join(out, "notes.md")) else ""
 for f in sorted(os.listdir(out)):
-    m = re.fullmatch(r"([A-C])\.diff", f)
+    m = re.fullmatch(r"([A-D])\.diff", f)
     if not m: continue
     L = m.group(1); l = L.lower()
     demo = os.path.join(out, f"demo_{l}.rs")
